@@ -645,6 +645,16 @@ def parse_merchants(content: str, match_mode: str = 'first_match') -> MerchantEn
 # CSV Conversion (Backwards Compatibility)
 # =============================================================================
 
+def _regex_call(pattern: str) -> str:
+    """Render regex("...") so that the string literal evaluates to exactly `pattern`.
+
+    The expression is parsed as Python source: an unescaped backslash sequence such as
+    \\b, \\1 or \\\\ would be interpreted by the string literal (backspace, \\x01, one
+    backslash) and a double quote would end it.
+    """
+    return 'regex("' + pattern.replace('\\', '\\\\').replace('"', '\\"') + '")'
+
+
 def _modifier_to_expr(parsed_pattern) -> str:
     """Convert parsed CSV modifiers to expression string."""
     conditions = []
@@ -713,7 +723,7 @@ def csv_rule_to_merchant_rule(
     if pattern:
         # Escape any special characters in the pattern for the match expression
         # We use regex() function for the pattern
-        parts.append(f'regex("{pattern}")')
+        parts.append(_regex_call(pattern))
 
     # Add modifier conditions
     modifier_expr = _modifier_to_expr(parsed_pattern)
@@ -816,7 +826,7 @@ def csv_to_merchants_content(csv_rules: List[Tuple]) -> str:
         parts = []
         if pattern:
             # Pattern is already properly escaped for regex use, write as-is
-            parts.append(f'regex("{pattern}")')
+            parts.append(_regex_call(pattern))
 
         modifier_expr = _modifier_to_expr(parsed) if parsed else ""
         if modifier_expr and not modifier_expr.startswith("#"):
